@@ -2,10 +2,12 @@ package props
 
 import (
 	"bufio"
+	"bytes"
 	"crypto/sha256"
 	"crypto/tls"
 	"encoding/json"
 	"fmt"
+	htcmd "github.com/honeytrap/honeytrap/cmd/honeytrap"
 	"io"
 	"net"
 	"os"
@@ -48,6 +50,7 @@ import (
 func init() {
 	register("C18", driver{run: runC18, noBubble: true})
 	register("C18/child", driver{run: runC18Child, noBubble: true})
+	register("C18/cli", driver{run: runC18CLI, noBubble: true})
 }
 
 type identity struct {
@@ -460,6 +463,7 @@ func runC18(c *core.Ctx) {
 		c.Sample(map[string]interface{}{"part": "crash-points", "traced_token_operations": fmt.Sprint(ops), "crash_states": len(states)})
 		os.RemoveAll(root)
 	})
+	c18CLI(c, base)
 }
 
 // ---------------------------------------------------------------- strace parsing
@@ -597,4 +601,117 @@ func tokenCrashStates(ops []fileOp) []crashState {
 		}
 	}
 	return out
+}
+
+// ---------------------------------------------------------------- the real command line
+
+// runC18CLI (child): the real command-line path of cmd/honeytrap — its own assembly of the server
+// options from --config and --data — started from the working directory VF_CWD with an empty
+// configuration: without a listener the server prints its banner and returns by itself.
+func runC18CLI(c *core.Ctx) {
+	cwd, data := os.Getenv("VF_CWD"), os.Getenv("VF_DATADIR")
+	os.MkdirAll(cwd, 0755)
+	if err := os.Chdir(cwd); err != nil {
+		fmt.Println("C18CLI-ERROR chdir:", err)
+		return
+	}
+	cfg := filepath.Join(cwd, "empty.toml")
+	os.WriteFile(cfg, []byte("\n"), 0644)
+	err := htcmd.New().Run([]string{"honeytrap", "--config", cfg, "--data", data})
+	os.Remove(cfg)
+	fmt.Println("C18CLI-DONE", err)
+}
+
+var bannerRe = regexp.MustCompile(`Honeytrap starting \(([^)]*)\)`)
+
+// startCLI runs one start through the command line and returns the token of the banner and what was printed.
+func startCLI(c *core.Ctx, dataDir, cwd string) (token string, out string, err error) {
+	cmd := exec.Command(os.Args[0], "-test.run", "^TestWorker$", "-test.timeout", "0")
+	cmd.Env = append(os.Environ(), "VF_PROP=C18/cli", "VF_DATADIR="+dataDir, "VF_CWD="+cwd, "VF_OUT=/dev/null", "VF_SHARD=0", "VF_NSHARDS=1", "VF_ONLY=-1", "VF_START=0", "VF_KEEP_STDOUT=1")
+	var buf bytes.Buffer
+	cmd.Stdout, cmd.Stderr = &buf, &buf
+	if err := cmd.Start(); err != nil {
+		return "", "", err
+	}
+	done := make(chan error, 1)
+	go func() { done <- cmd.Wait() }()
+	select {
+	case <-done:
+	case <-time.After(180 * time.Second):
+		cmd.Process.Kill()
+		return "", buf.String(), fmt.Errorf("start through the command line did not finish within 180 s")
+	}
+	c.Count("transitions", 1)
+	out = buf.String()
+	if !strings.Contains(out, "C18CLI-DONE") {
+		return "", out, fmt.Errorf("the command line did not return: %s", trunc(out, 300))
+	}
+	if m := bannerRe.FindStringSubmatch(out); m != nil {
+		token = m[1]
+	}
+	return token, out, nil
+}
+
+// c18CLI: restart histories through the real command line, from the same and from different working
+// directories, on fresh data directories and on the crash states of the token write path.
+func c18CLI(c *core.Ctx, base string) {
+	type pre struct {
+		name  string
+		files map[string]string // relative to the data directory
+	}
+	pres := []pre{
+		{"fresh data directory", nil},
+		{"token present", map[string]string{"token": "c0123456789abcdefghi"}},
+		{"empty temporary token file left behind", map[string]string{"token.tmp": ""}},
+		{"truncated temporary token file left behind", map[string]string{"token.tmp": "c012345"}},
+		{"token present and a temporary file left behind", map[string]string{"token": "c0123456789abcdefghi", "token.tmp": "zz"}},
+	}
+	cwdSeqs := [][]string{{"a", "a"}, {"a", "b"}, {"a", "b", "a"}, {"b", "a", "a"}}
+	for pi, p := range pres {
+		for si, seq := range cwdSeqs {
+			pi, p, si, seq := pi, p, si, seq
+			c.Case(fmt.Sprintf("cli/%s/cwd=%v", p.name, seq), func() {
+				root := filepath.Join(base, fmt.Sprintf("cli-%d-%d", pi, si))
+				os.RemoveAll(root)
+				data := filepath.Join(root, "data")
+				os.MkdirAll(data, 0755)
+				for f, content := range p.files {
+					os.WriteFile(filepath.Join(data, f), []byte(content), 0600)
+				}
+				desc := fmt.Sprintf("command-line starts on one data directory (%s) from working directories %v", p.name, seq)
+				var tokens []string
+				for i, w := range seq {
+					cwd := filepath.Join(root, "cwd-"+w)
+					tok, out, err := startCLI(c, data, cwd)
+					if err != nil {
+						c.Violationf("C18:cli:start-failed", "%s: start #%d: %v", desc, i+1, err)
+						return
+					}
+					if !tokenOK.MatchString(tok) {
+						c.Violationf("C18:cli:token-malformed", "%s: start #%d announced the token %q (output: %s)", desc, i+1, tok, trunc(out, 200))
+					}
+					b, _ := os.ReadFile(filepath.Join(data, "token"))
+					if string(b) != tok {
+						c.Violationf("C18:cli:token-not-in-datadir", "%s: start #%d announced %q, the data directory's token file holds %q", desc, i+1, tok, string(b))
+					}
+					if left, _ := filepath.Glob(filepath.Join(cwd, "token*")); len(left) > 0 {
+						c.Violationf("C18:cli:token-in-cwd", "%s: start #%d left %v in its working directory", desc, i+1, left)
+					}
+					tokens = append(tokens, tok)
+				}
+				for i := 1; i < len(tokens); i++ {
+					if tokens[i] != tokens[0] {
+						c.Violationf("C18:cli:token-changed", "%s: tokens of the starts: %v", desc, tokens)
+						break
+					}
+				}
+				if want, ok := p.files["token"]; ok && tokens[0] != want {
+					c.Violationf("C18:cli:token-replaced", "%s: the data directory held the token %q, the first start announced %q", desc, want, tokens[0])
+				}
+				c.Count("executions", 1)
+				c.Outcome("cli", p.name, fmt.Sprint(seq), fmt.Sprint(len(tokens)))
+				os.RemoveAll(root)
+			})
+		}
+	}
 }
